@@ -17,7 +17,7 @@ ID = "C10"
 LEVEL = "exploration"
 RULE = ("Exhaustive: every Unicode scalar value except C0/C1 controls (thorough: all 1,111,998 code points; quick: all "
         "of U+0080-U+00FF and U+0100-U+02FF, every plane / surrogate / 0x7FFF-0x8000 boundary, the 682 LaTeX target "
-        "characters and a seeded stratified sample), 1024 per document as body cells 'a<ch>b', '<ch>' and '<ch><ch>' "
+        "characters, every Unicode digit / number / space separator and a seeded stratified sample), 1024 per document as body cells 'a<ch>b', '<ch>' and '<ch><ch>' "
         "(string boundaries), written with write_rtf and read back from the BYTES. Random: mixed ASCII / Latin-1 / "
         "BMP / astral strings in every text-bearing position (body cell, explicit and default column header, title, "
         "subline, footnote and source as table and as paragraph, page_by heading, subline_by heading, page header "
@@ -31,6 +31,9 @@ SAFE_ASCII = "abcXYZ019 .,;:-+()[]/%#&*!?='\""
 # characters that text-handling code likes to treat specially (separators, invisible / combining / BOM / replacement)
 SPECIALS = ["\u2028", "\u2029", "\u00a0", "\u00ad", "\u2011", "\u200b", "\u200d", "\ufeff", "\ufffd", "e\u0301", "\u2126", "\u212b",
             "\u3000", "\u2002", "x\u2028", "\u2029y", "\ufb01", "\u2122", "\u00b1", "\u0131"]
+# whole texts that number parsers accept although they are not ASCII (Unicode digits, Unicode-space padding)
+NUMERIC_LOOKING = ["\u00a012.5", "12.5\u00a0", "\u2007\u20077", "\u0663", "\u0661\u0662.\u0665", "\uff11\uff12", "-\u0967\u0968", "\u30001e3",
+                   "\U0001d7d8\U0001d7d9", "\u0669\u0660\u00a0", "1\u2009000"]
 
 
 def valid_cp(cp):
@@ -60,6 +63,10 @@ def enumerate_cases(tier):
     for b in (0x7FF, 0x800, 0x7FFF, 0x8000, 0xD7FF, 0xE000, 0xFFFD, 0xFFFF, 0x10000, 0x10FFFF, 0x1F600, 0x20000, 0xE0001, 0xF0000, 0x100000):
         special.update(range(max(0x20, b - 3), min(0x10FFFF, b + 3) + 1))
     special.update(ord(c) for c in refdata.latex_table().values())
+    # characters with a meaning for number / whitespace handling: every decimal digit, letter-number, other number
+    # and space separator of Unicode (a lone one is a whole text that float() / int() / strip() treat specially)
+    import unicodedata
+    special.update(cp for cp in range(0x80, 0x110000) if unicodedata.category(chr(cp)) in ("Nd", "Nl", "No", "Zs", "Zl", "Zp"))
     cps = sorted(c for c in special if valid_cp(c))
     for i in range(0, len(cps), 512):
         yield {"cps": cps[i:i + 512]}
@@ -143,6 +150,8 @@ def raw_cases():
     for sp in SPECIALS:
         for conv in (True, False):
             yield {"raw": True, "sp": sp, "convert": conv}
+    for conv in (True, False):
+        yield {"whole": NUMERIC_LOOKING, "convert": conv}
 
 
 def raw_recipe(case):
@@ -218,6 +227,30 @@ def lexical(res, d, where):
             res.fail("structure", f"{a[0]}/{where}", repr(a)[:160])
 
 
+def check_whole(case, res):
+    """Whole texts (no tag, no neighbour character) in body cells, an explicit header and a table footnote."""
+    from ..rtfread import Row
+    texts = case["whole"]
+    conv = case["convert"]
+    cols = [{"name": "n0", "dtype": "str", "values": list(texts)}, {"name": "n1", "dtype": "str", "values": list(reversed(texts))}]
+    rec = {"kind": "table", "page": {"nrow": 1000}, "sections": [{"df": {"cols": cols}, "body": {"text_convert": conv},
+                                                               "headers": [{"text": [texts[0], texts[3]], "text_convert": conv}]}],
+           "footnote": {"text": [texts[4]], "as_table": True, "text_convert": conv}}
+    d = write_and_read(rec, "whole")
+    lexical(res, d, "document")
+    rows = [[c.text for c in b.cells] for pg in d.pages for b in pg if isinstance(b, Row)]
+    want = [[texts[0], texts[3]]] + [[a, b] for a, b in zip(texts, reversed(texts))] + [[texts[4]]]
+    if len(rows) != len(want):
+        res.fail("roundtrip", "whole/structure", f"{len(rows)} rows, expected {len(want)}")
+    else:
+        for k, (w, g) in enumerate(zip(want, rows)):
+            where = "explicit_header" if k == 0 else ("footnote_table" if k == len(want) - 1 else "body_cell")
+            for a, b in zip(w, g):
+                compare(res, where + "/numeric_looking_whole_text", a, b)
+    res.labels = ["numeric_looking_whole_text", "convert=" + ("on" if conv else "off")]
+    res.nontrivial = True
+
+
 def check_cps(case, res):
     if "cps" in case:
         cps = [c for c in case["cps"] if valid_cp(c)]
@@ -267,6 +300,9 @@ def check(case) -> Result:
             return res
         if case.get("raw"):
             check_raw(case, res)
+            return res
+        if case.get("whole"):
+            check_whole(case, res)
             return res
         d = write_and_read(case, "pos")
     except Exception as e:
@@ -327,7 +363,7 @@ def check(case) -> Result:
 
 def reductions(case):
     from ..reduce import generic_reductions
-    if case.get("raw"):
+    if case.get("raw") or case.get("whole"):
         return
     if "cps" in case or "cps_range" in case:
         cps = case.get("cps") or list(range(*case["cps_range"]))
